@@ -13,6 +13,7 @@ func Run(r *ev.Run) {
 	r.Assume("the Demon's package layout is the demonwire transcription of Package.c / Demon.c", "ids {1, 2, 0, 0x80000001} and three keys stand for all ids and keys")
 	if par.InBFSWorker() == "" {
 		runReaders(r)
+		runCallbacks(r)
 	}
 	res := runRegHistories(r)
 	r.Extra["registration_histories"] = map[string]any{"states": res.States, "transitions": res.Transitions, "depth_completed": res.Depth, "new_states_by_depth": res.ByDepth}
